@@ -824,3 +824,24 @@ def list_same_objects(a, b):
 def container_entries(entries):
     """the contents of the entries that hold notes (rests skipped), in bar order"""
     return [e[2] for e in entries if e[2] is not None]
+
+
+# ------------------------------------------------------------------ fingerings
+
+def min_pressed(f):
+    """lowest non-open fret of a fingering (frets per string; 0 = open)"""
+    return f[0] if len(f) == 1 else (min_pressed(f[1:]) if f[0] == 0 else
+                                     (f[0] if all([x == 0 for x in f[1:]]) else
+                                      (f[0] if f[0] <= min_pressed(f[1:]) else min_pressed(f[1:]))))
+
+
+def barre_run(rev, m):
+    """strings (from the last one backwards) fretted at m before the first open string is met"""
+    return 0 if len(rev) == 0 or rev[0] == 0 else (1 if rev[0] == m else 0) + barre_run(rev[1:], m)
+
+
+def fingers_spec(f):
+    """one finger per pressed string, except that the strings at the lowest fret that can be barred by the index finger
+    (those met, going from the last string backwards, before any open string) share one finger"""
+    return sum([1 if x != 0 else 0 for x in f]) - (barre_run(f[::-1], min_pressed(f)) - 1
+                                                   if barre_run(f[::-1], min_pressed(f)) > 1 else 0)
